@@ -519,6 +519,16 @@ impl<Sink: TokenSink> XmlTokenizer<Sink> {
         assert!(c.is_some());
     }
 
+    // Discard a single raw input character (no newline normalization); to be used
+    // in combination with peek().
+    fn discard_raw_char(&self, input: &BufferQueue) {
+        if self.reconsume.get() {
+            self.reconsume.set(false);
+        } else {
+            input.next();
+        }
+    }
+
     fn unconsume(&self, input: &BufferQueue, buf: StrTendril) {
         input.push_front(buf);
     }
